@@ -78,10 +78,23 @@ theorem c40_confined (cfg : Cfg) (ops : List Op) :
     ∀ p ∈ (fsRun cfg {} ops).1.touched, Confined cfg p :=
   touched_run cfg {} ops (by intro p hp; simp at hp)
 
-/-- … and every file that exists afterwards is such a path. -/
-theorem c40_files_confined (cfg : Cfg) (ops : List Op) :
-    ∀ p ∈ AMap.keys (fsRun cfg {} ops).1.files, Confined cfg p :=
-  files_run cfg {} ops (by intro p hp; simp [AMap.keys] at hp)
+/-- … and, whatever the file system held at the start (foreign symbolic links — dangling or live —
+directories, junk files inside or outside the keystore directory), every keystore-written file that
+exists afterwards was there before or is such a path; the keystore never creates a foreign object. -/
+theorem c40_files_confined (cfg : Cfg) (fs : FS) (ops : List Op) :
+    (∀ p ∈ AMap.keys (fsRun cfg fs ops).1.files, p ∈ AMap.keys fs.files ∨ Confined cfg p) ∧
+    (∀ p ∈ AMap.keys (fsRun cfg fs ops).1.foreign, p ∈ AMap.keys fs.foreign) :=
+  ⟨files_run cfg fs ops, foreign_run cfg fs ops⟩
+
+/-- **Refusing to overwrite, at the directory-entry level.** `Put` of a name whose file name is taken
+by ANY entry — key file, foreign file, directory, or a symbolic link even when it dangles (so that
+`Has` says false and `Get` says no-such-key) — returns `ErrKeyExists` and changes nothing: the
+exclusive create never follows the link out of the directory. -/
+theorem c40_put_refuses_entry (cfg : Cfg) (fs : FS) (n key : Bytes) (hn : ValidName cfg n)
+    (he : (fs.entry (join cfg.dir (encName n))).isSome = true) :
+    (fsStep cfg fs (.put n key)).2 = .exists ∧ (fsStep cfg fs (.put n key)).1.files = fs.files ∧
+      (fsStep cfg fs (.put n key)).1.foreign = fs.foreign :=
+  put_refuses_entry cfg fs n key hn he
 
 /-- before the fix the two implementations disagreed on `Delete` of a missing key; the fixed model
 returns `noSuchKey` from both (regression anchor for the `fix:` commit) -/
@@ -100,6 +113,10 @@ example : (fsRun cfg0 {} [.put [0x2e, 0x2e] [1], .put [0x61, 0x2f, 0x62] [2], .p
     = [.ok, .ok, .ok, .ok, .exists, .key [4], .ok, .noSuchKey, .names [[0x41], [0x61], [0x61, 0x2f, 0x62]]] := by
   decide
 example : String.ofList (encName [0x2e, 0x2e]) = "key_fyxa" := by decide
+/-- a dangling symbolic link under the file name of "..": listed, not there for Has/Get, refused by Put -/
+example : (fsRun cfg0 { foreign := [("/ks/key_fyxa".toList, .symlink "/outside/stolen".toList)] }
+    [.list, .has [0x2e, 0x2e], .get [0x2e, 0x2e], .put [0x2e, 0x2e] [1], .delete [0x2e, 0x2e], .list]).2
+    = [.names [[0x2e, 0x2e]], .bool false, .noSuchKey, .exists, .ok, .names []] := by decide
 end Examples
 
 end C40
